@@ -30,6 +30,8 @@ def stepDateTime (f : List String) : String :=
   | ["reset"] => "ok"
   | ["dt16", h] => showU (unmarshal16 (unhex h.toList))
   | ["dt201", h] => showU (unmarshal201 (unhex h.toList))
+  | ["dtx16", h, _, _] => showU (unmarshal16 (unhex h.toList))
+  | ["dtx201", h, _, _] => showU (unmarshal201 (unhex h.toList))
   | ["dt16"] => showU (unmarshal16 [])
   | ["dt201"] => showU (unmarshal201 [])
   | ["fmt16", s, n] | ["fmt201", s, n] => hex (marshalRFC3339 { sec := s.toInt?.getD 0, nano := n.toInt?.getD 0 })
